@@ -95,7 +95,11 @@ func (svr *Server) handshakeDataChannel(wsc websocket.Conn) {
 	text := "OK"
 	var session *Session
 	si, ok := svr.sessions.Load(channelID)
-	if ok {
+	if ok && !si.(*Session).checkPermission(wsc.Username()) {
+		// 数据通道的用户必须有权拉取控制通道的流
+		code = 403
+		text = "FORBIDDEN"
+	} else if ok {
 		session = si.(*Session)
 	} else {
 		code = 404
